@@ -582,6 +582,9 @@ def e_cmdargs(op):
     vol = op["volume"]
     if vol["t"] == "scalar":
         v = f"(CVScalar {e_pvol(vol['v'])})"
+    elif vol["t"] == "list" and vol["v"] and all(isinstance(x, dict) and "int" in x for x in vol["v"]):
+        # a list consisting only of Python ints: numpy keeps it integer and the command text shows plain integers
+        v = f"(CVIntList {clist([cz(x['int']) for x in vol['v']])})"
     elif vol["t"] == "list":
         v = f"(CVList {clist([e_pvol(x) for x in vol['v']])})"
     else:
